@@ -285,6 +285,16 @@ type c09op struct {
 
 func (o c09op) String() string { return fmt.Sprintf("%s(%d,%d,%d)", o.kind, o.c, o.s, o.a) }
 
+// c09dupAllowed: does the real cluster_table check accept two entries with the same addr:port
+// in one sub-cluster? (The alphabet follows the loaders: duplicate-address operations and the
+// duplicate entry of the second root exist only if a loaded file can contain them.)
+var c09dupAllowed = func() bool {
+	c := c09cfg{cl: [2]c09cl{c09defaultCluster(), {subs: [2]c09sub{{gw: -1}, {gw: -1}}}}}
+	c.cl[0].subs[0].bes = []c09be{{0, 0, 1}, {20, 0, 1}}
+	_, tb := c.build(0)
+	return cluster_table_conf.ClusterTableConfCheck(tb) == nil
+}()
+
 func c09ops(full bool) []c09op {
 	var ops []c09op
 	ops = append(ops, c09op{"same", 0, 0, 0})
@@ -367,7 +377,7 @@ func c09edit(cfg c09cfg, o c09op) (c09cfg, bool) {
 		}
 		sub.bes[i].name = (sub.bes[i].name + 10) % 20
 	case "dup":
-		if !cl.inT || !sub.inT {
+		if !cl.inT || !sub.inT || !c09dupAllowed {
 			return n, false
 		}
 		di := -1
@@ -1070,10 +1080,14 @@ func c09roots() []c09root {
 	base := c09cfg{cl: [2]c09cl{c09defaultCluster(), c09defaultCluster()}}
 	dup := base.clone()
 	dup.cl[0].bh = true
-	dup.cl[0].subs[0].bes = []c09be{{0, 0, 1}, {20, 0, 1}, {1, 1, 1}}
+	if c09dupAllowed {
+		dup.cl[0].subs[0].bes = []c09be{{0, 0, 1}, {20, 0, 1}, {1, 1, 1}}
+	} else {
+		dup.cl[0].subs[0].bes = []c09be{{0, 0, 2}, {1, 1, 0}, {2, 2, 1}}
+	}
 	dup.cl[1].subs[1] = c09sub{inT: true, gw: -1, bes: []c09be{{0, 0, 1}}}
 	empty := c09cfg{cl: [2]c09cl{{subs: [2]c09sub{{gw: -1}, {gw: -1}}}, {subs: [2]c09sub{{gw: -1}, {gw: -1}}}}}
-	return []c09root{{"init-base", base, true}, {"init-dup", dup, true}, {"empty", empty, false}}
+	return []c09root{{"init-base", base, true}, {"init-var", dup, true}, {"empty", empty, false}}
 }
 
 func c09hash(s string) int {
@@ -1110,6 +1124,16 @@ func (x *c09bfsCtx) run(hist []int) (string, bool) {
 	owner := x.force || r.Mine(ph)
 	if len(hist) == x.depth && !owner {
 		return "", false
+	}
+	// cheap pre-pass on the configuration alone: prune histories whose edits are not enabled
+	pre := x.root.cfg
+	for _, oi := range hist {
+		if o := x.ops[oi]; o.kind != "mark" && o.kind != "bal" {
+			var ok bool
+			if pre, ok = c09edit(pre, o); !ok {
+				return "", false
+			}
+		}
 	}
 	id := ""
 	if owner {
@@ -1221,7 +1245,7 @@ func c09partA(r *vk.Run) {
 	}
 	var passes []pass
 	if r.Thorough() {
-		passes = []pass{{"full", true, 3, []int{2}}, {"lean", false, 4, []int{1, 2}}, {"full", true, 4, []int{0}}}
+		passes = []pass{{"full", true, 3, []int{2, 1, 0}}, {"lean", false, 4, []int{2, 1, 0}}}
 	} else {
 		passes = []pass{{"full", true, 3, []int{2}}, {"lean", false, 3, []int{1}}, {"full", true, 3, []int{0}}}
 	}
@@ -1597,16 +1621,17 @@ func TestVerifC09(t *testing.T) {
 	defer r.Finish()
 	debug.SetGCPercent(400) // allocation-heavy replays under the race runtime; live heap is small
 	c09initKeys()
+	r.Set("duplicate_addresses_accepted_by_loader", c09dupAllowed)
 	r.Set("universe", "2 clusters x 2 sub-clusters (+GSLB_BLACKHOLE) x 3 addresses; names n0/n10 (rename), n20 (duplicate address); backend weights 0..2; gslb weights absent/0/1")
 	part := os.Getenv("C09_PART") // debugging aid only: "A" or "B" runs one part
-	t0 := time.Now()
-	if part != "B" {
-		c09partA(r)
-	}
-	r.Set("max_wall_partA_s", time.Since(t0).Seconds())
 	t1 := time.Now()
 	if part != "A" {
 		c09partB(r)
 	}
 	r.Set("max_wall_partB_s", time.Since(t1).Seconds())
+	t0 := time.Now()
+	if part != "B" {
+		c09partA(r)
+	}
+	r.Set("max_wall_partA_s", time.Since(t0).Seconds())
 }
